@@ -7,9 +7,10 @@ import common as C
 from props import _runseq
 
 PROPERTY = "C19"
-LEAN_MODULES = ["LccModel.Props.C19", "LccModel.Props.C19Runs"]
-PROPS_FILES = ["LccModel/Props/C19.lean", "LccModel/Props/C19Runs.lean"]
-NAMESPACES = {"LccModel/Props/C19.lean": "LccModel.C19", "LccModel/Props/C19Runs.lean": "LccModel.C19Runs"}
+LEAN_MODULES = ["LccModel.Props.C19", "LccModel.Props.C19Runs", "LccModel.Props.C19Content"]
+PROPS_FILES = ["LccModel/Props/C19.lean", "LccModel/Props/C19Runs.lean", "LccModel/Props/C19Content.lean"]
+NAMESPACES = {"LccModel/Props/C19.lean": "LccModel.C19", "LccModel/Props/C19Runs.lean": "LccModel.C19Runs",
+              "LccModel/Props/C19Content.lean": "LccModel.C19Runs"}
 DRIVER = "drivers/C19.lean"
 TRUSTED_BASE = [
     "Lean 4.33.0 kernel; axioms of the property theorems ⊆ {propext, Classical.choice, Quot.sound}",
